@@ -28,6 +28,14 @@ def run(tier, seed, ev):
                            N=2, spill=True)
         c02.fill(ev, ex, mir_s, tier)
         rc_t = tcommon.best(rc_t, tcommon.crash_image_run(PROP, tier, seed, ev, ex, "kill"))
+        # the log stays well-formed when an append FAILS: histories of two operations with at most one failed call anywhere -
+        # the records that reached the log carry strictly increasing versions (none used twice)
+        import obl_history as H
+        from props import c14
+        hist = [("put", "put")] + ([("remove", "put"), ("put", "remove")] if tier == "thorough" else [])
+        hobs = [(f"history {' ; '.join(k)} with one failed call: record versions in the log strictly increase", "history",
+                 (lambda k: lambda ex: H.ob_fault_history(ex, k, 2, 2))(k)) for k in hist]
+        rc_t = tcommon.best(rc_t, c14.run_histories(PROP, tier, seed, ev, ex, hobs, accept=lambda role: role.startswith("version-reused")))
         ev.functions += c03.KH_LIST[0].functions + tcommon.MIR_FUNCS[:6]
         ev.bounds["write_entry payload"] = c03.KH_LIST[0].bounds
         ev.outside.append("wf(image) is decided per operation from an abstract well-formed pre-image (inductive step); record framing bytes and "
